@@ -49,8 +49,12 @@ def write(root, samples, categories, vis_levels=("full", "most", "partial", "non
     for i, s in enumerate(samples):
         T["sample"].append(dict(token=tok("s", i), timestamp=s["ts"], prev=tok("s", i - 1) if i > 0 else "", next=tok("s", i + 1) if i < n - 1 else "",
                                 scene_token="scene0"))
-        ex, ey, eyaw = s["ego"]
-        T["ego_pose"].append(dict(token=tok("ep", i), timestamp=s["ts"], rotation=quat_z(eyaw), translation=[ex, ey, 0.0]))
+        if len(s["ego"]) == 3:
+            ex, ey, eyaw = s["ego"]
+            ez, epitch, eroll = 0.0, 0.0, 0.0
+        else:  # (x, y, z, yaw, pitch, roll): tilted ego
+            ex, ey, ez, eyaw, epitch, eroll = s["ego"]
+        T["ego_pose"].append(dict(token=tok("ep", i), timestamp=s["ts"], rotation=list(geom.quat_from_ypr(eyaw, epitch, eroll)), translation=[ex, ey, ez]))
         T["sample_data"].append(dict(token=tok("sd", i), sample_token=tok("s", i), ego_pose_token=tok("ep", i), calibrated_sensor_token="cs0",
                                      timestamp=s["ts"], fileformat="pcd.bin", is_key_frame=True, height=0, width=0,
                                      filename="data/%s/%d.pcd.bin" % (lidar_channel, i), prev=tok("sd", i - 1) if i > 0 else "",
